@@ -735,7 +735,9 @@ void add_s7(mc::Runner &R, const std::string &name, bool quick, bool thorough) {
                             {GeometryAttribute::COLOR, DT_UINT8, 4, 0},        {GeometryAttribute::TEX_COORD, DT_FLOAT32, 2, 12}};
   static const int sets[3][4] = {{0, 1, 2, 3}, {0, 2, 5, 4}, {0, 1, 3, 4}};
   // (set 3) x (order 24) x (uid scheme 3) x (geometry/method 7: mesh seq s10, eb std s0, eb std s5, eb valence s3, eb std s7; cloud seq, cloud kd)
-  mc::Radix rx{7, 3, 24, 3};
+  // x (geometry 2: 4 points / two triangles; 4x4 vertex grid, 18 triangles - large enough for the traversal orders of the
+  // attributes (prediction degree vs depth first) to differ)
+  mc::Radix rx{7, 3, 24, 3, 2};
   auto make = [=](uint64_t idx, GeomDef *g, EncCfg *c) {
     auto d = rx.decode(idx);
     int perm[4] = {0, 1, 2, 3};
@@ -752,8 +754,18 @@ void add_s7(mc::Runner &R, const std::string &name, bool quick, bool thorough) {
     }
     const bool cloud = d[0] >= 5;
     g->is_mesh = !cloud;
-    g->num_points = 4;
-    if (!cloud) g->faces = {{0, 1, 2}, {2, 1, 3}};
+    const bool grid = d[4] == 1;
+    g->num_points = grid ? 16 : 4;
+    if (!cloud) {
+      if (!grid) g->faces = {{0, 1, 2}, {2, 1, 3}};
+      else
+        for (int y = 0; y < 3; ++y)
+          for (int x = 0; x < 3; ++x) {
+            const int a0 = y * 4 + x;
+            g->faces.push_back({a0, a0 + 1, a0 + 5});
+            g->faces.push_back({a0, a0 + 5, a0 + 4});
+          }
+    }
     c->qbits.clear();
     for (int i = 0; i < 4; ++i) {
       const A &a = pool[sets[d[3]][perm[i]]];
@@ -762,15 +774,16 @@ void add_s7(mc::Runner &R, const std::string &name, bool quick, bool thorough) {
       ad.dt = a.dt;
       ad.nc = a.nc;
       ad.uid = d[1] == 0 ? (uint32_t)i : d[1] == 1 ? (uint32_t)(3 - i) : (uint32_t)(i == 0 ? 70000 : i == 1 ? 5 : i == 2 ? 300 : 1);
-      for (int v = 0; v < 4; ++v) {
+      for (int v = 0; v < g->num_points; ++v) {
         const int salt = sets[d[3]][perm[i]];
         if (a.dt == DT_FLOAT32) {
           std::vector<float> f(a.nc);
           for (int k2 = 0; k2 < a.nc; ++k2) f[k2] = a.type == GeometryAttribute::NORMAL ? (k2 == v % 3 ? 1.f : 0.f) : 0.25f * ((v * 3 + k2 * 5 + salt) % 7);
           if (a.type == GeometryAttribute::POSITION) {
             float p[3];
-            gs::id_position(v, p);
+            gs::id_position(v % 4, p);
             f = {p[0], p[1], p[2]};
+            if (grid) f = {(float)(v % 4), (float)(v / 4), 0.5f * ((v * v) % 3)};
           }
           ad.entries.push_back(bytes_of(f));
         } else if (a.dt == DT_INT16) {
